@@ -29,6 +29,14 @@ DESC = {
  'C09-4': 'scan-position cache guarded by a uint16 generation (stale after exactly 65536*k frees)',
  'C10-3': 'command line split on Latin-1 white space only (non-Latin-1 Unicode separators)',
  'C10-4': 'tag type read as 16 bits (vendor tag type >= 0x10000 aliasing a defined one)',
+ 'C11-1': 'parse mode not reset between tables (earlier table with a deferred block, later table with a forward call)',
+ 'C11-2': 'progress counters reset at the top of each resolve pass (two-level forward reference between Scope directives)',
+ 'C11-3': 'same counter reset, found independently (three-step relocation chain in reverse visit order)',
+ 'C11-4': 'relocation target ScopeBlock taken by position `ArgAt(target,1)` (parent is a Processor or PowerResource)',
+ 'C12-1': 'byte-list bounds check computed as `offset+dataLen` in uint32 (Connection buffer size >= 2^32-offset)',
+ 'C12-2': 'unbalanced pkgEnd push/pop for Connection buffers (two zero-PkgLength Connection buffers in one field list: hang)',
+ 'C12-3': 'same push/pop imbalance, found independently',
+ 'C12-4': 'EISA-id vendor letters through a 27-entry lookup string (`Name(_HID, dword)` with a letter code 27-31: PrettyPrint panics)',
  'C13-3': 'one-entry lookup memo not invalidated by a middle `appendAfter`',
  'C13-4': 'upward search capped at 128 levels',
  'C14-3': '8-bytes-at-a-time checksum with 16-bit lanes (tables of 1025-2048 heavy bytes)',
